@@ -61,7 +61,7 @@ PLANS = {
             enum_iter("asan", 4, 5, False, random=100, tiers=("quick",)), enum_iter("asan", 12, 8, False, random=2000, tiers=("thorough",)),
             enum_iter("miri", 16, 2, False, extra=2, bare=True, tiers=("quick",)), enum_iter("miri", 16, 4, False, extra=2, bare=True, tiers=("thorough",)),
             hist("order", 2, 480000, 3000000)],
-    "C13": [hist("big", 1, 40000, 300000), job("churn", "native", 4, [], budget={"quick": 1000000, "thorough": 25000000}, budget_arg="ops"), job("interleave", "native", 2, [], budget={"quick": 200000, "thorough": 3000000}), hist("capacity", 14, 480000, 7500000), hist("realloc", 2, 480000, 3000000)],
+    "C13": [job("bigcap", "native", 2, [], budget={"quick": 300000, "thorough": 3000000}, budget_arg="max-n"), hist("big", 1, 40000, 300000), job("churn", "native", 4, [], budget={"quick": 1000000, "thorough": 25000000}, budget_arg="ops"), job("interleave", "native", 2, [], budget={"quick": 200000, "thorough": 3000000}), hist("capacity", 14, 480000, 7500000), hist("realloc", 2, 480000, 3000000)],
     "C14": [hist("big", 1, 40000, 300000), hist("realloc", 1, 480000, 3000000), job("interleave", "native", 2, [], budget={"quick": 200000, "thorough": 3000000}), hist("clone", 12, 480000, 7500000), hist("mixed", 2, 480000, 3000000),
             hist("clone", 6, 100000, 2000000, mode="asan", reports_to=MEM),
             hist("clone", 16, 300, 4000, mode="miri", reports_to=MEM, extra=["--bare", "1"])],
@@ -104,7 +104,7 @@ FLOORS = {
     "C06": {"evaluations": {"quick": 300000, "thorough": 10000000}, "distinct": 100, "c12_dropped_after_prefix": 500, "each:c06_typevar_": 500},
     "C07": {"evaluations": {"quick": 300000, "thorough": 10000000}, "distinct": 300, "reallocations": {"quick": 10000, "thorough": 300000}, "max:max_len": {"quick": 100, "thorough": 1000}},
     "C12": {"evaluations": {"quick": 20000, "thorough": 200000}, "distinct": 5000, "c12_past_exhaustion": 1000, "c12_dropped_after_prefix": 1000},
-    "C13": {"evaluations": {"quick": 50000, "thorough": 1500000}, "distinct": 60, "c13_auto_growth": 500, "c13_shrunk": 500, "c13_alloc_failures_injected": 200, "c13_try_reserve_err_capacity": 200, "c13_with_capacity_inserts": 500, "c13_churn_ops": {"quick": 3000000, "thorough": 90000000}},
+    "C13": {"evaluations": {"quick": 50000, "thorough": 1500000}, "distinct": 60, "c13_auto_growth": 500, "c13_shrunk": 500, "c13_alloc_failures_injected": 200, "c13_try_reserve_err_capacity": 200, "c13_with_capacity_inserts": 500, "c13_churn_ops": {"quick": 3000000, "thorough": 90000000}, "c13_bigcap_constructions_20000_plus": 20},
     "C14": {"evaluations": {"quick": 100000, "thorough": 3000000}, "distinct": 100, "c14_ops_with_sibling_caches": 50000},
     "C15": {"evaluations": {"quick": 2000, "thorough": 20000}, "distinct": 60},
     "C16": {"evaluations": {"quick": 200000, "thorough": 5000000}, "distinct": 1000, "each:c16_fired_": 20, "c16_hash_panic_in_explicit_rebuild": 1000, "c16_hash_panic_in_growing_insert": 300,
@@ -129,8 +129,8 @@ RULES = {
     "C06": "Identity-level drop ledger: every key/value object has a unique id; after every event 'objects alive == objects in the caches + objects handed back' and no id is ever dropped twice; histories end by drop, clear, drain, into_iter/into_keys/into_values consumed from either end for any number of steps; plus every next/next_back string on owning iterators for small lengths; plus the same exactly-once ledger over type configurations that differ in drop glue (LruCache<TKey,u64>, <u32,TVal>, <TKey,&str>, <TKey,TVal>) with every way of ending; the same workloads under AddressSanitizer+LeakSanitizer and Miri (leak check on). distinct = (operation kind, #drops class, #handed back, #caches, outcome).",
     "C07": "Observation gate after every event: hook walk forward == reverse(backward), == len(), node set == occupied buckets, link symmetry (G1); iter/rev/keys/values/peek_lru/peek_mru == walk (G2); contains/peek/peek_entry of every id (both key forms) find exactly the walked node (G3); returned references point into the walked nodes. Reallocation-heavy histories natively, under ASan (caches to thousands of entries) and under Miri. distinct = (operation kind, length class, reallocated?, hasher, post length class).",
     "C12": "Exhaustive enumeration: for each of the 7 iterator kinds, every cache length 0..=N and EVERY string over {next, next_back} of length <= len+3 (calls past exhaustion and drop-after-prefix included), on caches whose list order differs from bucket order, followed by further use of the cache; plus random strings on lists up to 60. Yields compared with the spec computed from the observed pre-state; drain aftermath; ledger for unconsumed entries. distinct = (kind, length, #calls, #backs, call-string bits).",
-    "C13": "Histories with capacity operations anywhere (arguments 0, small, len, capacity+-1, usize::MAX, usize::MAX-len), allocator refusal injected into try_reserve, automatic growth compared with the capacity a fresh with_capacity(2*len) table gets from the library itself, with_capacity(n) promise, growth bound tracked per history. distinct = (operation, rebuilt?, length class, argument class, outcome).",
-    "C14": "Clone checked against its source right after clone() (ids, order, recorded sizes, scalars, capacity, disjoint object ids and node addresses, source fingerprint unchanged); afterwards every operation on any cache must leave every sibling cache's observation and structural fingerprint unchanged. Also under ASan and Miri (shared ownership would be a double free). distinct = (length class, hasher, tombstones?, ...) and (operation, sibling length).",
+    "C13": "Histories with capacity operations anywhere (arguments 0, small, len, capacity+-1, usize::MAX, usize::MAX-len), allocator refusal injected into try_reserve, automatic growth compared with the capacity a fresh with_capacity(2*len) table gets from the library itself, with_capacity(n) promise (also for n up to 3*10^5 quick / 3*10^6 thorough in a dedicated run with reserve/shrink at that scale), growth bound tracked per history, constant-length churn of 10^6-10^8 operations. distinct = (operation, rebuilt?, length class, argument class, outcome).",
+    "C14": "Clone checked against its source right after clone() (ids, order, recorded sizes, scalars, capacity, disjoint object ids and node addresses, source fingerprint unchanged); afterwards every operation on any cache must leave every sibling cache's observation and structural fingerprint unchanged; `clone_from` between clones and independently constructed caches (own hasher instance, other limit and capacity) must make the target equal to the source in the same sense. Also under ASan and Miri (shared ownership would be a double free). distinct = (length class, hasher, tombstones?, ...) and (operation, sibling length).",
     "C15": "Exhaustive enumeration of all 2^n reject-subsets (by recency position) for n <= N on caches with shuffled recency order, tombstones and a reallocation; predicate call log must equal the pre-order with the stored addresses; survivors, len/current_size, ledger of rejected objects. Plus patterned/random predicates on lists up to 60 and retain inside random histories. distinct = (length class, subset shape, #rejected class, hasher).",
     "C16": "Fault enumeration: small cache states built by random histories (0-14 events, universe 3-8, all hashers, incl. table exactly full and cache full); for each state ~40 operations covering the whole mutating and cloning API; a counting run yields the number of user callbacks per class (hash, eq, clone, key size, value size, mutate closure, retain predicate); then for EVERY class and EVERY index n the state is rebuilt by replay, the n-th callback panics, and the monitor checks: hook walk both ways mirrors / == len() / node set == buckets, public traversals and lookups agree, current_size == sum of recorded sizes, no held object dropped, no double drop; closure panics additionally bound + nothing lost; then 6-20 further random operations with the same checks, then drop. Same under ASan and Miri (touching a freed bucket is a hard report). evaluations = injected panics that fired; distinct = (operation, class, index, state length, hasher, rebuilt?, post length).",
     "C17": "Fault enumeration: for each of the 7 iterator kinds, every length 0..=N and every next/next_back string of length <= len+1, the iterator is mem::forget-ed; afterwards the cache (if any) is observed (gate G1-G3), must not list any object the iterator handed out, is used by ~12 further operations with all transition oracles on, and is dropped; the ledger must show no double drop. Same under ASan (leak check off) and Miri (-Zmiri-ignore-leaks).",
